@@ -10,7 +10,6 @@ package main
 
 import (
 	"encoding/binary"
-	"encoding/hex"
 	"fmt"
 	"sort"
 	"strings"
@@ -156,9 +155,17 @@ func main() {
 				}
 				return string(ns[a]) < string(ns[b])
 			})
-			items := make([]string, len(ns))
-			for i, n := range ns {
-				items[i] = "\"" + hex.EncodeToString(n) + "\""
+			// lossless run-length encoding of the sorted observation
+			var items []string
+			for i := 0; i < len(ns); {
+				pre := binary.BigEndian.Uint32(ns[i][:4])
+				first := binary.BigEndian.Uint64(ns[i][4:])
+				j := i + 1
+				for j < len(ns) && binary.BigEndian.Uint32(ns[j][:4]) == pre && binary.BigEndian.Uint64(ns[j][4:]) == first+uint64(j-i) {
+					j++
+				}
+				items = append(items, fmt.Sprintf("(%d, %d, %d%%nat)", pre, first, j-i))
+				i = j
 			}
 			cs := "Ini"
 			if side == "R" {
@@ -190,10 +197,10 @@ func main() {
 		runCase(replay{Name: "fresh-session-16-senders", Goroutines: 16, PerG: 40, PlainLen: 0})
 		runCase(replay{Name: "both-ends-same-counter-near-wrap", IStart: U64(^uint64(0) - 5), RStart: U64(^uint64(0) - 5), Goroutines: 4, PerG: 4, PlainLen: 1})
 		root := vh.NewRand(int64(uint64(c.Seed)*0xD1342543DE82EF95 + 0x632BE59BD9B4E019))
-		n := c.N(40, 300)
+		n := c.N(30, 300)
 		for i := 0; i < n; i++ {
 			r := root.Fork()
-			rp := replay{Name: "random", Goroutines: r.Pick(1, 2, 4, 8, 16, 32), PerG: r.Pick(1, 2, 7, 25, 60), PlainLen: r.Pick(0, 1, 16, 1000)}
+			rp := replay{Name: "random", Goroutines: r.Pick(1, 2, 4, 8, 16, 32), PerG: r.Pick(1, 2, 7, 20, 40), PlainLen: r.Pick(0, 1, 16, 1000)}
 			switch r.Intn(3) {
 			case 0:
 			case 1:
